@@ -892,14 +892,17 @@ bool SPxSolverBase<R>::leave(int leaveIdx, bool polish)
       SPX_MSG_INFO3((*this->spxout), (*this->spxout) << "ILEAVE02 unboundedness/infeasibility found "
                     << "in leave()" << std::endl;)
 
+      /* the direction of the ray is given by leaveMax; enterVal may have been overwritten by the ratio test with the
+       * (possibly zero) step length of a rejected instable pivot and hence does not carry the sign reliably
+       */
       if(rep() != COLUMN)
       {
-         computePrimalray4Row(enterVal);
+         computePrimalray4Row(leaveMax);
          setBasisStatus(SPxBasisBase<R>::UNBOUNDED);
       }
       else
       {
-         computeDualfarkas4Col(enterVal);
+         computeDualfarkas4Col(leaveMax);
          setBasisStatus(SPxBasisBase<R>::INFEASIBLE);
       }
 
@@ -998,12 +1001,12 @@ bool SPxSolverBase<R>::leave(int leaveIdx, bool polish)
                /**@todo if shift() is not zero we must not conclude unboundedness */
                if(rep() == ROW)
                {
-                  computePrimalray4Row(enterVal);
+                  computePrimalray4Row(leaveMax);
                   setBasisStatus(SPxBasisBase<R>::UNBOUNDED);
                }
                else
                {
-                  computeDualfarkas4Col(enterVal);
+                  computeDualfarkas4Col(leaveMax);
                   setBasisStatus(SPxBasisBase<R>::INFEASIBLE);
                }
 
